@@ -87,6 +87,24 @@ def chains(types, n):
     return out
 
 
+def chained_assignments(types_s, types_ab):
+    """a = b = x: C11 6.5.16/3 - the value of `b = x` is the value of b after the assignment, so a
+    receives (Ta)(Tb)x.  Destinations: locals and registers."""
+    out = []
+    for s in types_s:
+        for tb in types_ab:
+            for ta in types_ab:
+                d = [(s, "x", "input"), (ta, "a", "local"), (tb, "b", "local"), ("int64_t", "r", "local"), ("int64_t", "q", "local")]
+                out.append(P(d, "a = b = x; r = a; q = b;", ["r", "q"], tag=("chain-assign", s, tb, ta)))
+                out.append(P(d, "a = b = (%s)x; r = a; q = b;" % tb, ["r", "q"], tag=("chain-assign-cast", s, tb, ta)))
+            d = [(s, "x", "input"), (tb, "b", "local"), ("int64_t", "q", "local")]
+            out.append(P(d, "RdV = b = x; q = b;", ["q"], tag=("chain-reg", s, tb, "R")))
+            out.append(P(d, "RddV = b = x; q = b;", ["q"], tag=("chain-reg", s, tb, "RR")))
+            out.append(P(d, "PdV = b = x; q = b;", ["q"], tag=("chain-reg", s, tb, "P")))
+            out.append(P(d, "b = RxV = x; q = b;", ["q"], tag=("chain-reg-inner", s, tb)))
+    return out
+
+
 def assign_chains(types):
     out = []
     for s in types:
@@ -101,10 +119,12 @@ def space(tier):
         sp = single(T8, T8) + boolean_sources(["int8_t", "uint16_t", "int32_t", "uint64_t"])
         sp += chains(["int8_t", "uint8_t", "int32_t", "uint64_t"], 2)
         sp += assign_chains(["int8_t", "uint16_t", "int64_t"])
+        sp += chained_assignments(["int32_t", "uint64_t", "int8_t"], ["int8_t", "uint8_t", "int16_t", "uint32_t", "int64_t"])
     else:
         sp = single(T8, T8) + boolean_sources(T8)
         sp += chains(T8, 2) + chains(["int8_t", "uint8_t", "int16_t", "uint32_t", "int64_t", "uint64_t"], 3)
         sp += assign_chains(T8)
+        sp += chained_assignments(T8, T8)
     seen = set()
     out = []
     for s in sp:
